@@ -20,6 +20,18 @@ package main
 // Also required: both functions exist, each writes to its `conn` parameter only through direct
 // calls conn.Write(..) (an assignment of conn.Write to a variable, or passing conn.Write as a
 // value, is not recognised and fails).
+//
+// Second obligation (encoders): the bytes a reply encoder returns must not be retained or reused
+// after it returns -- the connection loop is still writing them while other connections encode.
+// In package resp (non-test files), for every function reachable (calls followed by NAME inside the
+// package, conservative) from a method named ToBytes:
+//   (E1) every package-level variable it mentions is a read-only constant: declared with an
+//        initialiser that is a basic literal ("\r\n") or a conversion of a string literal
+//        ([]byte("$-1\r\n")), and nowhere in the package assigned to, index-assigned, appended to,
+//        address-taken or used as the receiver of a method call.  Anything else (sync.Pool,
+//        bytes.Buffer, a slice from make, a map ...) is refused;
+//   (E2) it does not assign to a field of its receiver / of anything (`x.f = ..`, `x.f[i] = ..`):
+//        no per-value cache of encoded bytes.
 // Outside the obligation (reported as information): deadline calls in other packages, e.g. the
 // pub/sub push path memdb.ChanMap.Send, which is the subject of C19.
 
@@ -31,6 +43,7 @@ import (
 	"go/token"
 	"os"
 	"path/filepath"
+	"sort"
 	"strings"
 )
 
@@ -53,6 +66,10 @@ type wfacts struct {
 	Writes             []wsite `json:"writes"`                // conn.Write calls of the two loops
 	Unrecognised       []wsite `json:"unrecognised"`          // uses of conn.Write that are not plain calls
 	Shape              string  `json:"shape"`                 // per loop: S1 | S2 | none
+	EncoderFuncs       []string `json:"encoder_funcs"`        // functions reachable from ToBytes methods
+	EncoderIssues      []wsite  `json:"encoder_issues"`       // violations of (E1)/(E2)
+	EncodersOK         bool     `json:"encoders_ok"`
+	WritesOK           bool     `json:"writes_ok"`
 	OK                 bool    `json:"ok"`
 }
 
@@ -283,8 +300,279 @@ func cmdWriteCheck(args []string) error {
 		}
 		facts.Shape += l.fn.Name.Name + ":" + shapes[l.fn.Name.Name]
 	}
-	facts.OK = facts.HandleFound && facts.HandleClusterFound && len(facts.Unrecognised) == 0 && len(facts.Writes) > 0 &&
+	if err := encoderFacts(repo, fset, &facts); err != nil {
+		return err
+	}
+	facts.WritesOK = facts.HandleFound && facts.HandleClusterFound && len(facts.Unrecognised) == 0 && len(facts.Writes) > 0 &&
+		shapes["Handle"] != "none" && shapes["HandleCluster"] != "none"
+	facts.OK = facts.EncodersOK && facts.HandleFound && facts.HandleClusterFound && len(facts.Unrecognised) == 0 && len(facts.Writes) > 0 &&
 		shapes["Handle"] != "none" && shapes["HandleCluster"] != "none"
 	out, _ := json.MarshalIndent(facts, "", " ")
 	return os.WriteFile(args[1], out, 0644)
+}
+
+// ---------------------------------------------------------------- encoders (E1, E2)
+
+type pkgVar struct {
+	file     string
+	line     int
+	readOnly bool // initialiser is a literal / conversion of a literal
+	why      string
+}
+
+func literalInit(e ast.Expr) bool {
+	switch x := e.(type) {
+	case *ast.BasicLit:
+		return true
+	case *ast.CallExpr: // []byte("...") / string("...")
+		if len(x.Args) != 1 {
+			return false
+		}
+		if _, ok := x.Args[0].(*ast.BasicLit); !ok {
+			return false
+		}
+		switch f := x.Fun.(type) {
+		case *ast.ArrayType:
+			return f.Len == nil && exprStr(f.Elt) == "byte"
+		case *ast.Ident:
+			return f.Name == "string"
+		}
+	}
+	return false
+}
+
+// rootIdent: the identifier at the bottom of x, x[i], x.f, *x
+func rootIdent(e ast.Expr) string {
+	for {
+		switch x := e.(type) {
+		case *ast.Ident:
+			return x.Name
+		case *ast.IndexExpr:
+			e = x.X
+		case *ast.SliceExpr:
+			e = x.X
+		case *ast.SelectorExpr:
+			e = x.X
+		case *ast.StarExpr:
+			e = x.X
+		case *ast.ParenExpr:
+			e = x.X
+		default:
+			return ""
+		}
+	}
+}
+
+func encoderFacts(repo string, fset *token.FileSet, facts *wfacts) error {
+	files, _ := filepath.Glob(filepath.Join(repo, "resp", "*.go"))
+	vars := map[string]*pkgVar{}
+	funcs := map[string][]*ast.FuncDecl{} // by name (methods of different types merged: conservative)
+	funcFile := map[*ast.FuncDecl]string{}
+	var parsed []*ast.File
+	for _, path := range files {
+		if strings.HasSuffix(path, "_test.go") {
+			continue
+		}
+		f, err := parser.ParseFile(fset, path, nil, 0)
+		if err != nil {
+			return err
+		}
+		parsed = append(parsed, f)
+		rel, _ := filepath.Rel(repo, path)
+		for _, d := range f.Decls {
+			switch x := d.(type) {
+			case *ast.GenDecl:
+				if x.Tok != token.VAR {
+					continue
+				}
+				for _, sp := range x.Specs {
+					vs := sp.(*ast.ValueSpec)
+					for i, n := range vs.Names {
+						v := &pkgVar{file: rel, line: fset.Position(n.Pos()).Line}
+						if i < len(vs.Values) && literalInit(vs.Values[i]) {
+							v.readOnly = true
+						} else {
+							v.why = "not initialised by a literal"
+						}
+						vars[n.Name] = v
+					}
+				}
+			case *ast.FuncDecl:
+				if x.Body != nil {
+					funcs[x.Name.Name] = append(funcs[x.Name.Name], x)
+					funcFile[x] = rel
+				}
+			}
+		}
+	}
+	// a variable that is written anywhere in the package is not a constant
+	spoil := func(name, why string) {
+		if v, ok := vars[name]; ok && v.readOnly {
+			v.readOnly = false
+			v.why = why
+		}
+	}
+	for _, f := range parsed {
+		ast.Inspect(f, func(n ast.Node) bool {
+			switch x := n.(type) {
+			case *ast.AssignStmt:
+				for _, l := range x.Lhs {
+					spoil(rootIdent(l), "assigned to")
+				}
+			case *ast.IncDecStmt:
+				spoil(rootIdent(x.X), "assigned to")
+			case *ast.UnaryExpr:
+				if x.Op == token.AND {
+					spoil(rootIdent(x.X), "address taken")
+				}
+			case *ast.CallExpr:
+				if id, ok := x.Fun.(*ast.Ident); ok && (id.Name == "append" || id.Name == "copy") && len(x.Args) > 0 {
+					spoil(rootIdent(x.Args[0]), "appended / copied to")
+				}
+				if sel, ok := x.Fun.(*ast.SelectorExpr); ok {
+					if id, ok := sel.X.(*ast.Ident); ok {
+						spoil(id.Name, "used as the receiver of a method call")
+					}
+				}
+			}
+			return true
+		})
+	}
+	// functions reachable from the ToBytes methods
+	reach := map[*ast.FuncDecl]bool{}
+	var queue []*ast.FuncDecl
+	for _, fn := range funcs["ToBytes"] {
+		if fn.Recv != nil {
+			reach[fn] = true
+			queue = append(queue, fn)
+		}
+	}
+	for len(queue) > 0 {
+		fn := queue[0]
+		queue = queue[1:]
+		ast.Inspect(fn.Body, func(n ast.Node) bool {
+			c, ok := n.(*ast.CallExpr)
+			if !ok {
+				return true
+			}
+			name := ""
+			switch f := c.Fun.(type) {
+			case *ast.Ident:
+				name = f.Name
+			case *ast.SelectorExpr:
+				name = f.Sel.Name
+			}
+			for _, g := range funcs[name] {
+				if !reach[g] {
+					reach[g] = true
+					queue = append(queue, g)
+				}
+			}
+			return true
+		})
+	}
+	seen := map[string]bool{}
+	for fn := range reach {
+		label := fn.Name.Name
+		if fn.Recv != nil && len(fn.Recv.List) > 0 {
+			label = strings.TrimPrefix(exprStrStar(fn.Recv.List[0].Type), "*") + "." + label
+		}
+		facts.EncoderFuncs = append(facts.EncoderFuncs, label)
+		// local names shadow package-level ones: parameters, receiver, := definitions
+		local := map[string]bool{}
+		if fn.Recv != nil {
+			for _, f := range fn.Recv.List {
+				for _, n := range f.Names {
+					local[n.Name] = true
+				}
+			}
+		}
+		for _, f := range fn.Type.Params.List {
+			for _, n := range f.Names {
+				local[n.Name] = true
+			}
+		}
+		ast.Inspect(fn.Body, func(n ast.Node) bool {
+			switch x := n.(type) {
+			case *ast.AssignStmt:
+				if x.Tok == token.DEFINE {
+					for _, l := range x.Lhs {
+						if id, ok := l.(*ast.Ident); ok {
+							local[id.Name] = true
+						}
+					}
+				}
+			case *ast.RangeStmt:
+				if x.Tok == token.DEFINE {
+					for _, l := range []ast.Expr{x.Key, x.Value} {
+						if id, ok := l.(*ast.Ident); ok {
+							local[id.Name] = true
+						}
+					}
+				}
+			case *ast.ValueSpec:
+				for _, id := range x.Names {
+					local[id.Name] = true
+				}
+			}
+			return true
+		})
+		ast.Inspect(fn.Body, func(n ast.Node) bool {
+			switch x := n.(type) {
+			case *ast.SelectorExpr:
+				// only the root of a selector can be a package-level variable; the field name is not
+				if id, ok := x.X.(*ast.Ident); ok {
+					if v, isVar := vars[id.Name]; isVar && !local[id.Name] && !v.readOnly {
+						key := label + "/" + id.Name
+						if !seen[key] {
+							seen[key] = true
+							facts.EncoderIssues = append(facts.EncoderIssues, wsite{File: funcFile[fn], Func: label, Line: fset.Position(id.Pos()).Line,
+								What: "package-level variable " + id.Name + " (declared " + v.file + ":" + fmt.Sprint(v.line) + ")", Why: "(E1) " + v.why + ": encoded bytes may live in memory shared between replies"})
+						}
+					}
+				}
+				return false
+			case *ast.Ident:
+				if v, isVar := vars[x.Name]; isVar && !local[x.Name] && !v.readOnly {
+					key := label + "/" + x.Name
+					if !seen[key] {
+						seen[key] = true
+						facts.EncoderIssues = append(facts.EncoderIssues, wsite{File: funcFile[fn], Func: label, Line: fset.Position(x.Pos()).Line,
+							What: "package-level variable " + x.Name + " (declared " + v.file + ":" + fmt.Sprint(v.line) + ")", Why: "(E1) " + v.why + ": encoded bytes may live in memory shared between replies"})
+					}
+				}
+			case *ast.AssignStmt:
+				for _, l := range x.Lhs {
+					if _, isSel := stripIndex(l).(*ast.SelectorExpr); isSel {
+						facts.EncoderIssues = append(facts.EncoderIssues, wsite{File: funcFile[fn], Func: label, Line: fset.Position(l.Pos()).Line,
+							What: "assignment to " + exprStr(stripIndex(l)), Why: "(E2) an encoder stores into a field: encoded bytes may be retained after it returns"})
+					}
+				}
+			}
+			return true
+		})
+	}
+	sort.Strings(facts.EncoderFuncs)
+	facts.EncodersOK = len(funcs["ToBytes"]) > 0 && len(facts.EncoderIssues) == 0
+	return nil
+}
+
+func stripIndex(e ast.Expr) ast.Expr {
+	for {
+		switch x := e.(type) {
+		case *ast.IndexExpr:
+			e = x.X
+		case *ast.ParenExpr:
+			e = x.X
+		default:
+			return e
+		}
+	}
+}
+
+func exprStrStar(e ast.Expr) string {
+	if s, ok := e.(*ast.StarExpr); ok {
+		return "*" + exprStr(s.X)
+	}
+	return exprStr(e)
 }
